@@ -309,7 +309,7 @@ struct Value {
         default:
             // ascii representation
             data.resize(str.length());
-            memcpy(data.data(), str.data(), str.length());
+            if (str.length() > 0) memcpy(data.data(), str.data(), str.length());
             return data;
         }
     }
@@ -437,7 +437,17 @@ struct Value {
     }
     void do_addr_to_spk() {
         // addresses are base58-check encoded, so we decode them first
-        do_base58chkdec();
+        if (type != T_STRING) {
+            fprintf(stderr, "cannot convert a non-string value into a scriptPubKey (expected a base58 encoded address)\n");
+            return;
+        }
+        if (!DecodeBase58Check(str, data, 200) || data.size() != 21) {
+            fprintf(stderr, "decode failed (not a base58check encoded address)\n");
+            data.clear();
+            type = T_DATA;
+            return;
+        }
+        type = T_DATA;
         // they are now prefixed with a 0x00; rip that out
         data.erase(data.begin());
         // wrap in appropriate script fluff
